@@ -102,16 +102,18 @@ theorem local_ids (c : Cfg ε) (hc : c.caching = true) (hcw : CfgWF c) (fA : Nat
     (∀ x ∈ nt.completed ++ nt.halted ++ nt.updated, inCache a.cacheC x.id = false ∧ inCache a.cacheH x.id = false) ∧
     (∀ u ∈ nt.updated, ∀ f ∈ nt.completed ++ nt.halted, u.id ≠ f.id) ∧
     (∀ x ∈ nt.completed ++ nt.halted, a'.table.runAt x.phen x.pat x.id = none) ∧
-    IdInv c (fun id => Iss id ∨ ∃ k, a.nextId ≤ k ∧ k < a'.nextId ∧ id = fA k) a' := by
+    IdInv c (fun id => Iss id ∨ ∃ k, a.nextId ≤ k ∧ k < a'.nextId ∧ id = fA k) a' ∧
+    ((nt.completed ++ nt.halted).map (·.id)).Nodup := by
   have hcw' : CfgWF (withIds c fA) := hcw
   have hc' : (withIds c fA).caching = true := hc
   unfold localStep at hA
   have hprov := checkAgainstRuns_provenance e a.table hwf
   have hexact := fun ph pa id p => checkAgainstRuns_exact e a.table hwf ph pa id (fun r hr => hlive ph pa id r hr) p
   have hkept := checkAgainstRuns_kept_old e a.table hwf
-  generalize hcar : checkAgainstRuns e a.table = car at hA hprov hexact hkept
+  have hperkey := fun ph pa id => checkAgainstRuns_perkey e a.table hwf ph pa id
+  generalize hcar : checkAgainstRuns e a.table = car at hA hprov hexact hkept hperkey
   obtain ⟨t1, rhc, rhi, rupd⟩ := car
-  simp only at hA hprov hexact hkept
+  simp only at hA hprov hexact hkept hperkey
   cases hcp : checkAgainstPatterns (withIds c fA) e t1 a.nextId with
   | none => simp [hcp] at hA
   | some acc =>
@@ -120,7 +122,7 @@ theorem local_ids (c : Cfg ε) (hc : c.caching = true) (hcw : CfgWF c) (fA : Nat
     obtain ⟨d, hd, hpat⟩ := checkAgainstPatterns_exact (withIds c fA) hcw' e t1 a.nextId acc hcp
     have hids := checkAgainstPatterns_ids (withIds c fA) injA e t1 a.nextId acc hcp
     have hframe := checkAgainstPatterns_frame (withIds c fA) hcw' e t1 a.nextId acc hcp
-    obtain ⟨dh, du, hdh, hdu, hrange, hsepp, hnodup⟩ := hids.lists
+    obtain ⟨dh, du, hdh, hdu, hrange, hsepp, hnodup, hnodupH⟩ := hids.lists
     have hnext := hids.next
     simp only [List.nil_append] at hd hpat hdh hdu hrange hnext
     have hddu : du = d := by rw [hd] at hdu; exact hdu.symm
@@ -194,7 +196,7 @@ theorem local_ids (c : Cfg ε) (hc : c.caching = true) (hcw : CfgWF c) (fA : Nat
         rw [((keyMatch_iff ph pa id u).mp hk).2.2] at this
         exact hfreshid u hu this
     -- ===== 1. counter =====
-    refine ⟨hnext, ?_, ?_, ?_, ?_⟩
+    refine ⟨hnext, ?_, ?_, ?_, ?_, ?_⟩
     -- ===== 2. nothing announced is remembered as finished =====
     · intro x hx
       have hx' : x ∈ rhc ++ rhi ++ rupd ∨ x ∈ dh ++ du := by
@@ -361,6 +363,30 @@ theorem local_ids (c : Cfg ε) (hc : c.caching = true) (hcw : CfgWF c) (fA : Nat
           · intro x hx hxe
             exact hsepp x hx u hu (by rw [hxe, hidu])
 
+
+    -- ===== 6. every finished run is announced once in this notification =====
+    · -- (rhc ++ dh) ++ rhi: identifiers of the runs phase are distinct (one record per key, one key per identifier),
+      -- those of the patterns phase are distinct and fresh
+      have hrun : ((rhc ++ rhi).map (·.id)).Nodup := by
+        apply nodup_ids_of_key_unique
+        · intro ph pa id
+          obtain ⟨_, p2, p3, _⟩ := hperkey ph pa id
+          rw [List.filter_append, List.length_append, p2, p3]
+          exact contribOf_finished_le_one e ph _
+        · intro x hx y hy hxy
+          obtain ⟨rx, hrx⟩ := hprov' x (List.mem_append.mpr (.inl hx))
+          obtain ⟨ry, hry⟩ := hprov' y (List.mem_append.mpr (.inl hy))
+          rw [hxy] at hrx
+          exact hinv.uniq _ _ _ _ _ rx ry hrx hry
+      have hperm : ((rhc ++ dh ++ rhi).map (·.id)).Perm (((rhc ++ rhi) ++ dh).map (·.id)) := by
+        simp only [List.map_append, List.append_assoc]
+        exact List.Perm.append_left _ List.perm_append_comm
+      rw [hperm.nodup_iff, List.map_append, List.nodup_append]
+      refine ⟨hrun, hnodupH, ?_⟩
+      intro i hi j hj hij
+      obtain ⟨x, hx, ex⟩ := List.mem_map.mp hi
+      obtain ⟨y, hy, ey⟩ := List.mem_map.mp hj
+      exact hfreshid y (List.mem_append.mpr (.inl hy)) (by rw [ey, ← hij, ← ex]; exact hissued x (List.mem_append.mpr (.inl hx)))
 
 /-! ### the receiving side: keys of unknown patterns and the identifier counter are not touched -/
 
